@@ -170,7 +170,10 @@ func (c *Ctx) runQueryPurityFor(eng *effEngine, pkgs []*packages.Package, rule s
 			if _, all := queryInterfaces["toolbox3d"]; all && n == "Mesh" && (p.PkgPath == repoMod+"/model3d" || p.PkgPath == repoMod+"/model2d") {
 				for i := 0; i < named.NumMethods(); i++ {
 					f := named.Method(i)
-					if meshMutators[f.Name()] || seen[f] {
+					// exported methods only: an unexported helper is judged through
+					// the summaries of the exported methods that call it (a helper
+					// that mutates a fresh copy on behalf of its caller is no query)
+					if meshMutators[f.Name()] || seen[f] || !f.Exported() {
 						continue
 					}
 					fn := c.Prog.FuncValue(f)
